@@ -108,8 +108,47 @@ def build(kind):
         "R6": {"C": "R6.on_c_one", "B": "R6.on_b"},
         "R7": {"C": "R7.on_c", "A": "R7.on_a"},
     }
+    fam, fam_handlers = family(kind, log)
+    res.update(fam)
+    handlers.update(fam_handlers)
     disp = ServerMessageDispatcher() if kind == "server" else ClientMessageDispatcher()
     return disp, res, handlers, log
+
+
+def family(kind, log):
+    """resource classes that derive from one another (built afresh for every history: whatever the library
+    remembers per class starts empty, so the ORDER in which the classes are first used is part of the history).
+
+        Base            on_a: C20A
+        Derived(Base)   + on_b: C20B (class annotation), on_c: 'C20C' (string annotation); on_a inherited
+        Sibling(Base)   + z_c: C20C; on_a inherited
+
+    HB = Base(), HD and HD2 = two instances of Derived, HE = Sibling()."""
+    deco = server_event if kind == "server" else client_event
+
+    def handler(name, cls):
+        if kind == "server":
+            def h(self, client, seqnum, msg):
+                log.append(("%s.%s" % (self.rid, name), (client, seqnum, msg)))
+        else:
+            def h(self, seqnum, msg):
+                log.append(("%s.%s" % (self.rid, name), (seqnum, msg)))
+        h.__annotations__ = {"msg": cls}
+        h.__name__ = name
+        return deco(h)
+
+    def init(self, rid):
+        self.rid = rid
+
+    Base = type("C20Base", (object,), {"__init__": init, "on_a": handler("on_a", C20A)})
+    Derived = type("C20Derived", (Base,), {"on_b": handler("on_b", C20B), "on_c": handler("on_c", "C20C")})
+    Sibling = type("C20Sibling", (Base,), {"z_c": handler("z_c", C20C)})
+    res = {"HB": Base("HB"), "HD": Derived("HD"), "HD2": Derived("HD2"), "HE": Sibling("HE")}
+    handlers = {"HB": {"A": "HB.on_a"},
+                "HD": {"A": "HD.on_a", "B": "HD.on_b", "C": "HD.on_c"},
+                "HD2": {"A": "HD2.on_a", "B": "HD2.on_b", "C": "HD2.on_c"},
+                "HE": {"A": "HE.on_a", "C": "HE.z_c"}}
+    return res, handlers
 
 
 def free_fn(kind, log):
@@ -134,6 +173,12 @@ def names_of(rid, c, hs):
 OPS = [("register", r) for r in ("R1", "R2", "R3", "R4", "R5", "R6", "R7")] + [("unregister", r) for r in ("R1", "R2", "R3", "R4", "R5", "R6", "R7")] + \
       [("dispatch", m) for m in ("A", "B", "C", "D")] + [("register_function", "A"), ("register_function_byname", "B"), ("unregister_function", "A"), ("unregister_function", "C")]
 
+# second exploration: the class hierarchy (family()) on TWO dispatchers of the same kind.  An operation
+# with a third element acts on the second dispatcher.  No dispatch operations: every class is dispatched
+# on every dispatcher after every operation anyway.
+OPS_H = [(k, r) for k in ("register", "unregister") for r in ("HB", "HD", "HD2", "HE", "R3")] + \
+        [(k, r, 1) for k in ("register", "unregister") for r in ("HB", "HD", "HE")]
+
 
 class Run(object):
     """implementation + reference stepped together.
@@ -146,27 +191,35 @@ class Run(object):
     something that is not registered) the observed outcome is adopted, provided
     it lies in the allowed set."""
 
-    def __init__(self, kind):
+    def __init__(self, kind, hier=False):
         self.kind = kind
         self.disp, self.res, self.handlers, self.log = build(kind)
         self.f = free_fn(kind, self.log)
         self.ref = {}
         self.bad = None
         self.n = 0
+        # dispatchers and their references; index 0 is the one every two-element operation acts on
+        self.disps = [self.disp]
+        self.refs = [self.ref]
+        if hier:
+            self.disps.append(type(self.disp)())
+            self.refs.append({})
+        self.used = []   # resource classes in the order of their first use (register or unregister, anywhere)
 
     def flag(self, oracle, sig, msg):
         if self.bad is None:
             self.bad = (oracle, sig, msg)
 
-    def probe(self, letter):
+    def probe(self, letter, where=0):
         """dispatch one message of that class: returns handler name, None (DispatchError) or ('anomaly', text)"""
+        disp = self.disps[where]
         self.n += 1
         del self.log[:]
         msg = MSG[letter](v=self.n)
         token_c, token_s = object(), object()
         args = (token_c, token_s, msg) if self.kind == "server" else (token_s, msg)
         try:
-            self.disp.dispatch(*args)
+            disp.dispatch(*args)
             raised = None
         except DispatchError as e:
             raised = e
@@ -189,7 +242,7 @@ class Run(object):
                 a2 = (token_c, token_s, bad) if self.kind == "server" else (token_s, bad)
                 want = RAISES[k % len(RAISES)]
                 try:
-                    self.disp.dispatch(*a2)
+                    disp.dispatch(*a2)
                     return ("anomaly", "dispatch swallows an exception raised by the handler (%s)" % want.__name__)
                 except DispatchError:
                     return ("anomaly", "dispatch raises DispatchError although a handler is registered and was called (the handler raised %s)" % want.__name__)
@@ -200,19 +253,23 @@ class Run(object):
                     return ("anomaly", "a failing handler was invoked %d times" % len(self.log))
         return ran[0][0]
 
-    def observe(self):
-        return {letter: self.probe(letter) for letter in MSG}
+    def observe(self, where=0):
+        return {letter: self.probe(letter, where) for letter in MSG}
 
     def step(self, op):
-        kind, arg = op
-        ref = self.ref
+        kind, arg = op[0], op[1]
+        where = op[2] if len(op) > 2 else 0
+        ref = self.refs[where]
+        disp = self.disps[where]
+        if kind in ("register", "unregister") and type(self.res[arg]).__name__ not in self.used:
+            self.used.append(type(self.res[arg]).__name__)
         open_classes = {}   # class -> set of allowed observations (besides what ref says)
         raised = None
         if kind == "register":
             hs = self.handlers[arg]
             conflict = [c for c in hs if c in ref]
             try:
-                self.disp.register(self.res[arg])
+                disp.register(self.res[arg])
             except Exception as e:
                 raised = e
             if conflict or arg in SELF_CONFLICT:
@@ -233,7 +290,7 @@ class Run(object):
             hs = self.handlers[arg]
             fully = all(ref.get(c) in names_of(arg, c, hs) for c in hs)
             try:
-                self.disp.unregister(self.res[arg])
+                disp.unregister(self.res[arg])
             except Exception as e:
                 raised = e
             if fully and raised is not None:
@@ -245,7 +302,7 @@ class Run(object):
                     else:
                         open_classes[c] = {None, ref[c]}   # it raised on the way: either is acceptable
         elif kind == "dispatch":
-            got = self.probe(arg)
+            got = self.probe(arg, where)
             want = ref.get(arg)
             if isinstance(got, tuple):
                 self.flag("dispatch", got[1], "dispatch(%s)" % arg)
@@ -259,7 +316,7 @@ class Run(object):
         elif kind in ("register_function", "register_function_byname"):
             cls = MSG[arg]
             try:
-                self.disp.register_function(cls if kind == "register_function" else cls.__name__, self.f)
+                disp.register_function(cls if kind == "register_function" else cls.__name__, self.f)
             except Exception as e:
                 raised = e
             if arg in ref:
@@ -272,7 +329,7 @@ class Run(object):
         elif kind == "unregister_function":
             cls = MSG[arg]
             try:
-                self.disp.unregister_function(cls)
+                disp.unregister_function(cls)
             except Exception as e:
                 raised = e
             if arg in ref:
@@ -282,7 +339,17 @@ class Run(object):
             # absent: raising or not are both fine
         # observation after every operation
         if self.bad is None:
-            obs = self.observe()
+            # the dispatchers that were NOT operated on route exactly as before
+            for w in range(len(self.disps)):
+                if w == where:
+                    continue
+                for letter, got in self.observe(w).items():
+                    if isinstance(got, tuple):
+                        self.flag("dispatch", got[1], "after %s(%s) on another dispatcher: dispatch(%s)" % (kind, arg, letter))
+                    elif got != self.refs[w].get(letter):
+                        self.flag("other-dispatcher", "an operation on one dispatcher changes what another dispatcher invokes",
+                                  "after %s(%s) on dispatcher %d: dispatcher %d dispatch(%s) ran %s, registered there %s" % (kind, arg, where, w, letter, got, self.refs[w].get(letter)))
+            obs = self.observe(where) if self.bad is None else {}
             for letter, got in obs.items():
                 if isinstance(got, tuple):
                     self.flag("dispatch", got[1], "after %s(%s): dispatch(%s)" % (kind, arg, letter))
@@ -309,13 +376,17 @@ class Run(object):
                         self.flag("dispatch-wrong-handler", "dispatch invoked a wrong handler", "after %s(%s): dispatch(%s) ran %s, registered %s" % (kind, arg, letter, got, want))
 
     def canon(self):
+        if len(self.refs) > 1:
+            # plus the other dispatcher and the order in which the resource classes were first used
+            return tuple(tuple(sorted(r.items())) for r in self.refs) + (tuple(self.used),)
         return tuple(sorted(self.ref.items()))
 
 
-def bfs(kind, depth):
+def bfs(kind, depth, ops=None, hier=False):
+    ops = OPS if ops is None else ops
     seen = set()
     frontier = collections.deque([()])
-    r0 = Run(kind)
+    r0 = Run(kind, hier)
     seen.add(r0.canon())
     transitions = 0
     viols = {}
@@ -325,8 +396,8 @@ def bfs(kind, depth):
         hist = frontier.popleft()
         if len(hist) >= depth:
             continue
-        for op in OPS:
-            r = Run(kind)
+        for op in ops:
+            r = Run(kind, hier)
             for h in hist:
                 r.step(h)
             if r.bad:
@@ -336,7 +407,7 @@ def bfs(kind, depth):
             if r.bad:
                 key = (r.bad[0], r.bad[1])
                 if key not in viols:
-                    viols[key] = [0, {"kind": kind, "ops": [list(o) for o in hist + (op,)]}, r.bad[2]]
+                    viols[key] = [0, dict({"kind": kind, "ops": [list(o) for o in hist + (op,)]}, **({"hier": True} if hier else {})), r.bad[2]]
                 viols[key][0] += 1
                 continue
             k = r.canon()
@@ -350,18 +421,30 @@ def bfs(kind, depth):
 
 
 def work(arg):
-    kind, depth = arg
+    kind, depth = arg[:2]
+    if len(arg) > 2:
+        return (kind + " (class hierarchy)",) + bfs(kind, depth, OPS_H, True)
     return (kind,) + bfs(kind, depth)
 
 
 def run(tier, seed):
     rep = core.Report()
     depth = 5 if tier == "quick" else 8
-    res = core.pmap("checks.c20", "work", [("server", depth), ("client", depth)])
+    depth_h = 4 if tier == "quick" else 6
+    res = core.pmap("checks.c20", "work", [("server", depth), ("client", depth), ("server", depth_h, "hier"), ("client", depth_h, "hier")])
     states = transitions = 0
     maxd = 0
     samples = []
+    hier_cov = {"states": 0, "transitions": 0, "max_depth_with_new_states": 0, "depth_bound": depth_h, "operations": len(OPS_H), "samples": []}
     for kind, s, t, d, viols, smp in res:
+        if "hierarchy" in kind:
+            hier_cov["states"] += s
+            hier_cov["transitions"] += t
+            hier_cov["max_depth_with_new_states"] = max(hier_cov["max_depth_with_new_states"], d)
+            hier_cov["samples"] += smp[:1]
+            for (oracle, sig), (cnt, wit, msg) in sorted(viols.items()):
+                rep.add_violation(core.Violation(oracle, sig, wit, "%s dispatcher: %s [%d histories]" % (kind, msg, cnt)))
+            continue
         states += s
         transitions += t
         maxd = max(maxd, d)
@@ -374,6 +457,9 @@ def run(tier, seed):
         "rule": "BFS over all sequences of %d operations (register/unregister of 5 resources incl. one with string annotations and two partial-conflict shapes, dispatch of 4 classes incl. an unregistered subclass, "
                 "register_function by class and by name, unregister_function) up to depth %d; states = distinct registration maps (observed through dispatch after every operation and equal to the reference); every transition executes the real dispatcher" % (len(OPS), depth),
         "exhaustive": True, "samples": samples or [[["register", "R1"], ["dispatch", "A"]]],
+        "class_hierarchy": dict(hier_cov, rule="second BFS, two dispatchers of the same kind, resource classes built afresh per history: Base (A), Derived(Base) adding B (class annotation) and C (string annotation), "
+                                               "two instances of Derived, Sibling(Base) adding C, plus the unrelated R3 (C); register/unregister of each on the first dispatcher and of Base/Derived/Sibling instances on the second "
+                                               "(%d operations) up to depth %d; states = (registration map of each dispatcher, order in which the resource classes were first used); after every operation every class is dispatched on both dispatchers" % (len(OPS_H), depth_h)),
     }
     rep.assumptions = ["a refused registration may have had a partial effect on the resource's other classes (reference is three-valued there)",
                        "unregister of something not registered may raise or be a no-op"]
@@ -381,7 +467,7 @@ def run(tier, seed):
 
 
 def replay(witness):
-    r = Run(witness["kind"])
+    r = Run(witness["kind"], bool(witness.get("hier")))
     for op in witness["ops"]:
         r.step(tuple(op))
     return [core.Violation(r.bad[0], r.bad[1], witness, r.bad[2])] if r.bad else []
